@@ -15,7 +15,10 @@ from check_C20 import dense_vectors
 
 STARTERS = {"none": None, "bioco": "bioco", "borda": [BordaCount], "copeland": [CopelandMethod], "pickaperm": [PickAPerm],
             "borda+copeland": [BordaCount, CopelandMethod], "copeland+pickaperm+borda": [CopelandMethod, PickAPerm, BordaCount],
-            "borda+copeland+pickaperm": [BordaCount, CopelandMethod, PickAPerm]}
+            "borda+copeland+pickaperm": [BordaCount, CopelandMethod, PickAPerm],
+            # two starters of the same class that differ by a constructor argument only (same full name)
+            "borda+borda_bid": [BordaCount, lambda: BordaCount(use_bucket_id=True)],
+            "borda_bid+borda": [lambda: BordaCount(use_bucket_id=True), BordaCount]}
 
 
 def bio_scheme(rng):
